@@ -108,7 +108,6 @@ class RenderNode(Node):
             key = self.alias or template.name.split(".")[0]
 
             if self.loop and isinstance(val, Sequence) and not isinstance(val, str):
-                context.raise_for_loop_limit(len(val))
                 forloop = ForLoop(
                     name=key,
                     it=iter(val),
@@ -119,11 +118,12 @@ class RenderNode(Node):
                 namespace["forloop"] = forloop
                 namespace[key] = None
 
-                for itm in forloop:
-                    namespace[key] = itm
-                    character_count += template.render_with_context(
-                        ctx, buffer, partial=True, block_scope=True
-                    )
+                with ctx.loop_iterations(len(val)):
+                    for itm in forloop:
+                        namespace[key] = itm
+                        character_count += template.render_with_context(
+                            ctx, buffer, partial=True, block_scope=True
+                        )
             else:
                 namespace[key] = val
                 character_count = template.render_with_context(
@@ -170,7 +170,6 @@ class RenderNode(Node):
             key = self.alias or template.name.split(".")[0]
 
             if self.loop and isinstance(val, Sequence) and not isinstance(val, str):
-                context.raise_for_loop_limit(len(val))
                 forloop = ForLoop(
                     name=key,
                     it=iter(val),
@@ -181,11 +180,12 @@ class RenderNode(Node):
                 namespace["forloop"] = forloop
                 namespace[key] = None
 
-                for itm in forloop:
-                    namespace[key] = itm
-                    character_count += await template.render_with_context_async(
-                        ctx, buffer, partial=True, block_scope=True
-                    )
+                with ctx.loop_iterations(len(val)):
+                    for itm in forloop:
+                        namespace[key] = itm
+                        character_count += await template.render_with_context_async(
+                            ctx, buffer, partial=True, block_scope=True
+                        )
             else:
                 namespace[key] = val
                 character_count = await template.render_with_context_async(
